@@ -13,8 +13,8 @@ use std::collections::{BTreeMap, BTreeSet};
 
 type Reg = (String, usize);
 
-const CLAUSES: [&str; 11] = [
-    "CDescr", "CLifted", "CNamed", "CArgs", "CRet", "CRetAddr", "CStackStride", "CStackBase", "CDisjoint",
+const CLAUSES: [&str; 12] = [
+    "CDescr", "CLifted", "CStackOps", "CNamed", "CArgs", "CRet", "CRetAddr", "CStackStride", "CStackBase", "CDisjoint",
     "CSpPreserved", "CClasses",
 ];
 
@@ -340,9 +340,92 @@ fn le32(ws: &[u32]) -> Vec<Vec<u8>> { ws.iter().map(|w| w.to_le_bytes().to_vec()
 fn be32(ws: &[u32]) -> Vec<Vec<u8>> { ws.iter().map(|w| w.to_be_bytes().to_vec()).collect() }
 fn swap4(b: &[u8]) -> Vec<u8> { b.chunks(4).flat_map(|c| c.iter().rev().cloned().collect::<Vec<u8>>()).collect() }
 
+/// one instruction per row of the translator's register table (every sub-register kind of every GPR, 16-bit
+/// sp/bp/si/di, segment bases, xmm; every MIPS / PPC / A64 register), where an encoding exists
+fn register_rows(name: &str) -> Vec<Vec<u8>> {
+    let mut v: Vec<Vec<u8>> = vec![];
+    let modrm = |i: u8| 0xC0 | (i << 3) | ((i + 1) % 8);
+    match name {
+        "x86" => {
+            for i in 0..8u8 {
+                v.push(vec![0x88, modrm(i)]);            // mov r8, r8   (al cl dl bl ah ch dh bh)
+                v.push(vec![0x66, 0x89, modrm(i)]);      // mov r16, r16 (ax cx dx bx sp bp si di)
+                v.push(vec![0x89, modrm(i)]);            // mov r32, r32
+                v.push(vec![0x66, 0x50 + i]); v.push(vec![0x66, 0x58 + i]);   // push / pop r16
+                v.push(vec![0x50 + i]); v.push(vec![0x58 + i]);               // push / pop r32
+            }
+            for p in [0x26u8, 0x2e, 0x36, 0x3e, 0x64, 0x65] { v.push(vec![p, 0xa1, 0, 0, 0, 0]); }   // mov eax, seg:[0]
+            v.push(vec![0xc2, 0x08, 0x00]); v.push(vec![0xc9]); v.push(vec![0xc8, 0x10, 0x00, 0x00]);  // ret 8, leave, enter 16,0
+            v.push(vec![0x66, 0xc3]); v.push(vec![0x66, 0xc9]);
+        }
+        "amd64" => {
+            for i in 0..8u8 {
+                v.push(vec![0x88, modrm(i)]);                 // al .. bh
+                v.push(vec![0x40, 0x88, modrm(i)]);           // al cl dl bl spl bpl sil dil
+                v.push(vec![0x45, 0x88, modrm(i)]);           // r8b .. r15b
+                v.push(vec![0x66, 0x89, modrm(i)]); v.push(vec![0x66, 0x45, 0x89, modrm(i)]);
+                v.push(vec![0x89, modrm(i)]); v.push(vec![0x45, 0x89, modrm(i)]);
+                v.push(vec![0x48, 0x89, modrm(i)]); v.push(vec![0x4d, 0x89, modrm(i)]);
+                v.push(vec![0x50 + i]); v.push(vec![0x58 + i]); v.push(vec![0x41, 0x50 + i]); v.push(vec![0x41, 0x58 + i]);
+                v.push(vec![0x66, 0x50 + i]); v.push(vec![0x66, 0x58 + i]);
+                v.push(vec![0x66, 0x0f, 0xef, 0xC0 | (i << 3) | i]);          // pxor xmm0-7
+                v.push(vec![0x66, 0x45, 0x0f, 0xef, 0xC0 | (i << 3) | i]);    // pxor xmm8-15
+                v.push(vec![0x62, 0xa1, 0x7d, 0x00, 0xef, 0xC0 | (i << 3) | i]);   // vpxord xmm16-23 (EVEX)
+                v.push(vec![0x62, 0x01, 0x7d, 0x00, 0xef, 0xC0 | (i << 3) | i]);   // vpxord xmm24-31 (EVEX)
+            }
+            for p in [0x26u8, 0x2e, 0x36, 0x3e, 0x64, 0x65] { v.push(vec![p, 0x48, 0x8b, 0x04, 0x25, 0, 0, 0, 0]); }
+            v.push(vec![0xc2, 0x08, 0x00]); v.push(vec![0xc9]); v.push(vec![0xc8, 0x10, 0x00, 0x00]);
+            v.push(vec![0x66, 0xc9]);
+        }
+        "mips" | "mipsel" => {
+            for d in 0..32u32 {
+                let w = (d << 21) | (d << 16) | (d << 11) | 0x21;       // addu $d, $d, $d
+                v.push(if name == "mips" { w.to_be_bytes().to_vec() } else { w.to_le_bytes().to_vec() });
+            }
+        }
+        "ppc" => {
+            for r in 0..32u32 { v.push((0x7c000378u32 | (r << 21) | (r << 16) | (r << 11)).to_be_bytes().to_vec()); }  // or r, r, r
+            for c in 0..8u32 { v.push((0x2c030000u32 | (c << 23)).to_be_bytes().to_vec()); }                           // cmpwi crN, r3, 0
+            v.push(0x7d2903a6u32.to_be_bytes().to_vec()); v.push(0x7d2902a6u32.to_be_bytes().to_vec());                 // mtctr / mfctr r9
+        }
+        _ => {
+            for n in 0..31u32 { v.push((0xaa0003e0u32 | (n << 16) | n).to_le_bytes().to_vec()); }    // mov xN, xN
+            for n in 0..32u32 {
+                v.push((0x3dc003e0u32 | n).to_le_bytes().to_vec());    // ldr qN, [sp]
+                v.push((0x85804000u32 | n).to_le_bytes().to_vec());    // ldr zN, [x0]   (SVE)
+                if n < 16 { v.push((0x85800000u32 | n).to_le_bytes().to_vec()); }   // ldr pN, [x0]   (SVE)
+            }
+        }
+    }
+    v
+}
+
+/// the instructions that move the stack pointer by the ISA's definition
+fn stack_ops(name: &str) -> Vec<(&'static str, Vec<u8>)> {
+    let w = |big: bool, x: u32| if big { x.to_be_bytes().to_vec() } else { x.to_le_bytes().to_vec() };
+    match name {
+        "x86" => vec![("push eax", vec![0x50]), ("pop eax", vec![0x58]), ("push ax", vec![0x66, 0x50]), ("pop ax", vec![0x66, 0x58]),
+                      ("push imm8", vec![0x6a, 0x01]), ("call rel32", vec![0xe8, 0, 0, 0, 0]), ("call eax", vec![0xff, 0xd0]),
+                      ("ret", vec![0xc3]), ("ret 8", vec![0xc2, 0x08, 0x00]), ("leave", vec![0xc9]), ("enter 16,0", vec![0xc8, 0x10, 0x00, 0x00]),
+                      ("sub esp,16", vec![0x83, 0xec, 0x10]), ("mov esp,ebp", vec![0x89, 0xec]),
+                      ("sub sp,16", vec![0x66, 0x83, 0xec, 0x10]), ("mov sp,bp", vec![0x66, 0x89, 0xec])],
+        "amd64" => vec![("push rax", vec![0x50]), ("pop rax", vec![0x58]), ("push r12", vec![0x41, 0x54]), ("pop r12", vec![0x41, 0x5c]),
+                        ("push ax", vec![0x66, 0x50]), ("pop ax", vec![0x66, 0x58]), ("push imm8", vec![0x6a, 0x01]),
+                        ("call rel32", vec![0xe8, 0, 0, 0, 0]), ("call rax", vec![0xff, 0xd0]), ("ret", vec![0xc3]), ("ret 8", vec![0xc2, 0x08, 0x00]),
+                        ("leave", vec![0xc9]), ("enter 16,0", vec![0xc8, 0x10, 0x00, 0x00]), ("sub rsp,32", vec![0x48, 0x83, 0xec, 0x20]),
+                        ("mov rsp,rbp", vec![0x48, 0x89, 0xec]), ("sub esp,16", vec![0x83, 0xec, 0x10]), ("mov esp,ebp", vec![0x89, 0xec]),
+                        ("sub sp,16", vec![0x66, 0x83, 0xec, 0x10]), ("mov sp,bp", vec![0x66, 0x89, 0xec])],
+        "mips" | "mipsel" => { let b = name == "mips";
+            vec![("addiu $sp,$sp,-32", w(b, 0x27bdffe0)), ("addiu $sp,$sp,32", w(b, 0x27bd0020)), ("move $sp,$fp", w(b, 0x03c0e825))] }
+        "ppc" => vec![("stwu r1,-16(r1)", w(true, 0x9421fff0)), ("addi r1,r1,16", w(true, 0x38210010)), ("mr r1,r31", w(true, 0x7fe1fb78))],
+        _ => vec![("stp x29,x30,[sp,#-16]!", w(false, 0xa9bf7bfd)), ("ldp x29,x30,[sp],#16", w(false, 0xa8c17bfd)),
+                  ("sub sp,sp,#32", w(false, 0xd10083ff)), ("add sp,sp,#32", w(false, 0x910083ff)), ("mov sp,x29", w(false, 0x910003bf))],
+    }
+}
+
 fn corpus(name: &str) -> Vec<Vec<u8>> {
     let own = |c: &[&[u8]]| c.iter().map(|b| b.to_vec()).collect::<Vec<_>>();
-    match name {
+    let mut v = match name {
         "x86" => { let mut v = own(X86_EXTRA); v.extend(own(X86_CORPUS)); v }
         "amd64" => { let mut v = own(AMD64_EXTRA); v.extend(own(X86_CORPUS)); v }
         "mips" => { let mut v = be32(MIPS_EXTRA); v.extend(own(MIPS_CORPUS)); v }
@@ -350,7 +433,10 @@ fn corpus(name: &str) -> Vec<Vec<u8>> {
         "ppc" => { let mut v = be32(PPC_EXTRA); v.extend(own(PPC_CORPUS)); v }
         "aarch64" | "aarch64eb" => { let mut v = le32(A64_EXTRA); v.extend(le32(A64_CORPUS)); v }
         _ => vec![],
-    }
+    };
+    v.extend(register_rows(name));
+    v.extend(stack_ops(name).into_iter().map(|(_, b)| b));
+    v
 }
 
 struct Lifted {
@@ -359,12 +445,13 @@ struct Lifted {
     seen: BTreeSet<Reg>,
     addr_widths: BTreeSet<usize>,
     assigned: BTreeSet<String>,
+    written: BTreeSet<Reg>,
     text: String,
 }
 
 fn lift(arch: &dyn Architecture, seqs: &[Vec<u8>]) -> Lifted {
     let tr = arch.translator();
-    let mut l = Lifted { ok: 0, failed: 0, seen: BTreeSet::new(), addr_widths: BTreeSet::new(), assigned: BTreeSet::new(), text: String::new() };
+    let mut l = Lifted { ok: 0, failed: 0, seen: BTreeSet::new(), addr_widths: BTreeSet::new(), assigned: BTreeSet::new(), written: BTreeSet::new(), text: String::new() };
     for bytes in seqs {
         let r = observe(|| tr.translate_block(bytes, 0x1000, &Options::default()));
         let btr = match r { Obs::Ok(b) => b, _ => { l.failed += 1; continue; } };
@@ -377,9 +464,8 @@ fn lift(arch: &dyn Architecture, seqs: &[Vec<u8>]) -> Lifted {
                     let mut scalars: Vec<&il::Scalar> = vec![];
                     if let Some(v) = op.scalars_read() { scalars.extend(v); }
                     if let Some(v) = op.scalars_written() { scalars.extend(v); }
-                    for s in scalars {
-                        if !s.name().starts_with("temp") { l.seen.insert((s.name().to_string(), s.bits())); }
-                    }
+                    for s in scalars { l.seen.insert((s.name().to_string(), s.bits())); }
+                    if let Some(v) = op.scalars_written() { for s in v { l.written.insert((s.name().to_string(), s.bits())); } }
                     match op {
                         il::Operation::Load { index, .. } | il::Operation::Store { index, .. } => { l.addr_widths.insert(index.bits()); }
                         _ => {}
@@ -389,9 +475,7 @@ fn lift(arch: &dyn Architecture, seqs: &[Vec<u8>]) -> Lifted {
             }
             for e in cfg.edges() {
                 if let Some(c) = e.condition() {
-                    for s in c.scalars() {
-                        if !s.name().starts_with("temp") { l.seen.insert((s.name().to_string(), s.bits())); }
-                    }
+                    for s in c.scalars() { l.seen.insert((s.name().to_string(), s.bits())); }
                 }
             }
         }
@@ -437,7 +521,7 @@ fn elf_machine(name: &str) -> (u16, bool) {
 struct Dump {
     name: String, endian: Endian, word: usize, sp: Reg, cc: CallingConvention,
     argtypes: Vec<ArgumentType>, queried: Vec<Reg>, is_preserved: Vec<Option<bool>>, is_trashed: Vec<Option<bool>>,
-    table: Vec<Reg>, lifted: Lifted, probe: &'static str, elf: (u16, bool), loader: Option<(String, Endian)>,
+    table: Vec<Reg>, lifted: Lifted, stack_ops: Vec<(String, Vec<Reg>)>, stack_ops_rejected: Vec<String>, probe: &'static str, elf: (u16, bool), loader: Option<(String, Endian)>,
 }
 
 fn reg_of(s: &il::Scalar) -> Reg { (s.name().to_string(), s.bits()) }
@@ -449,6 +533,13 @@ fn dump(arch: &dyn Architecture) -> Dump {
     let sp = reg_of(&arch.stack_pointer());
     let table = table(&name);
     let lifted = lift(arch, &corpus(&name));
+    let mut stack_ops_ok = vec![];
+    let mut stack_ops_rejected = vec![];
+    for (m, bytes) in stack_ops(&name) {
+        let l = lift(arch, &[bytes]);
+        if l.ok == 1 { stack_ops_ok.push((m.to_string(), l.written.iter().filter(|r| !r.0.starts_with("temp_")).cloned().collect::<Vec<Reg>>())); }
+        else { stack_ops_rejected.push(m.to_string()); }
+    }
     let mut q: BTreeSet<Reg> = BTreeSet::new();
     q.insert(sp.clone());
     q.extend(cc.argument_registers().iter().map(reg_of));
@@ -469,7 +560,7 @@ fn dump(arch: &dyn Architecture) -> Dump {
         _ => None,
     };
     Dump { name, endian: arch.endian(), word: arch.word_size(), sp, cc, argtypes, queried, is_preserved, is_trashed,
-           table, probe: probe(arch), lifted, elf: (machine, big), loader }
+           table, probe: probe(arch), lifted, stack_ops: stack_ops_ok, stack_ops_rejected, elf: (machine, big), loader }
 }
 
 // ---------------------------------------------------------------- Gallina printers
@@ -489,13 +580,14 @@ fn g_dump(d: &Dump) -> String {
     let cc = &d.cc;
     let args: Vec<Reg> = cc.argument_registers().iter().map(reg_of).collect();
     format!(
-        "Definition {} : dump := {{|\n d_name := \"{}\"; d_endian := {}; d_word := {}; d_sp := {};\n d_cc := {{| args := {};\n   preserved := {};\n   trashed := {};\n   stack_off := {}; stack_len := {}; ret_addr := {}; ret_reg := {} |}};\n d_argtypes := {};\n d_queried := {};\n d_is_preserved := {};\n d_is_trashed := {};\n d_table := {};\n d_seen := {};\n d_addr_widths := {}; d_probe := {}; d_elf := ({}, {});\n d_loader := {} |}}.",
+        "Definition {} : dump := {{|\n d_name := \"{}\"; d_endian := {}; d_word := {}; d_sp := {};\n d_cc := {{| args := {};\n   preserved := {};\n   trashed := {};\n   stack_off := {}; stack_len := {}; ret_addr := {}; ret_reg := {} |}};\n d_argtypes := {};\n d_queried := {};\n d_is_preserved := {};\n d_is_trashed := {};\n d_table := {};\n d_seen := {};\n d_stack_ops := {};\n d_addr_widths := {}; d_probe := {}; d_elf := ({}, {});\n d_loader := {} |}}.",
         ident(&d.name), d.name, g_endian(&d.endian), d.word, g_reg(&d.sp), g_regs(&args),
         g_regs(&sorted(cc.preserved_registers())), g_regs(&sorted(cc.trashed_registers())),
         cc.stack_argument_offset(), cc.stack_argument_length(), g_ra(cc.return_address_type()), g_reg(&reg_of(cc.return_register())),
         coq_list(d.argtypes.iter().map(g_arg)), g_regs(&d.queried),
         coq_list(d.is_preserved.iter().map(g_optb)), coq_list(d.is_trashed.iter().map(g_optb)),
         g_regs(&d.table), g_regs(&d.lifted.seen.iter().cloned().collect::<Vec<_>>()),
+        coq_list(d.stack_ops.iter().map(|(m, ws)| format!("(\"{}\", {})", m, g_regs(ws)))),
         coq_list(d.lifted.addr_widths.iter().map(|w| w.to_string())), d.probe, d.elf.0, if d.elf.1 { "Big" } else { "Little" },
         coq_opt(d.loader.as_ref().map(|(n, e)| format!("(\"{}\", {})", n, g_endian(e)))))
 }
@@ -517,9 +609,11 @@ fn describe(d: &Dump, clause: &str) -> String {
     let body = match clause {
         "CDescr" => format!("endian={} word_size={} stack_pointer={}:{} elf(e_machine={},{}) -> loader picks {:?}",
             g_endian(&d.endian), d.word, d.sp.0, d.sp.1, d.elf.0, if d.elf.1 { "MSB" } else { "LSB" }, d.loader.as_ref().map(|(n, e)| format!("{}/{}", n, g_endian(e)))),
-        "CLifted" => format!("lifted {} blocks ({} rejected): sp in table={} sp in IL={} address widths={:?} decode order={} scalars seen with a width other than the table's=[{}]",
+        "CLifted" => format!("lifted {} blocks ({} rejected): sp in table={} sp in IL={} address widths={:?} decode order={} scalars in lifted IL outside the register table (flags, specials, and anything else)=[{}]",
             d.lifted.ok, d.lifted.failed, d.table.contains(&d.sp), d.lifted.seen.contains(&d.sp), d.lifted.addr_widths, d.probe,
-            h_regs(&d.lifted.seen.iter().filter(|r| !d.table.contains(r) && d.table.iter().any(|t| t.0 == r.0)).cloned().collect::<Vec<_>>())),
+            h_regs(&d.lifted.seen.iter().filter(|r| !d.table.contains(r) && !r.0.starts_with("temp_")).cloned().collect::<Vec<_>>())),
+        "CStackOps" => format!("stack_pointer={}:{}; scalars written by [{}] (not lifted: {:?})", d.sp.0, d.sp.1,
+            d.stack_ops.iter().map(|(m, ws)| format!("{} -> {}", m, h_regs(ws))).collect::<Vec<_>>().join("; "), d.stack_ops_rejected),
         "CNamed" => format!("named registers the translator does not produce with that width=[{}]", h_regs(&named.iter().filter(|r| !uni.contains(r)).cloned().collect::<Vec<_>>())),
         "CArgs" => format!("argument_registers=[{}]", h_regs(&cc.argument_registers().iter().map(reg_of).collect::<Vec<_>>())),
         "CRet" => format!("return_register={}:{}", cc.return_register().name(), cc.return_register().bits()),
@@ -560,7 +654,9 @@ fn main() {
     let mut extra = BTreeMap::new();
     for d in &dumps {
         extra.insert(d.name.clone(), serde_json::json!({"blocks_lifted": d.lifted.ok, "blocks_rejected": d.lifted.failed,
-            "table_registers": d.table.len(), "scalars_seen": d.lifted.seen.len(), "queried": d.queried.len()}));
+            "table_registers": d.table.len(), "scalars_seen": d.lifted.seen.len(), "queried": d.queried.len(),
+            "stack_ops_lifted": d.stack_ops.len(), "stack_ops_rejected": d.stack_ops_rejected,
+            "table_rows_never_seen": d.table.iter().filter(|r| !d.lifted.seen.contains(r)).map(|r| r.0.clone()).collect::<Vec<_>>()}));
     }
     write_cases(&args, "C20", &header, "ck", &cases, 4, serde_json::json!({"total_cases": total, "per_arch": extra}));
 }
